@@ -301,9 +301,9 @@ impl<'a, 'b> Gen<'a, 'b> {
         self.doc_counter += 1;
         let n = self.doc_counter;
         const FRAGS: &[&str] = &[
-            "plain words", "has {{ braces }}", "a // slash pair", "/* block */", "<b>html</b> & stuff", "`code` and [link](#x)",
+            "plain words", "has {{ braces }}", "a // slash pair", "/* block */", "<b>html</b> & stuff", "`code` and [brackets]",
             "ends with {", "} starts with", "# heading", "* star _under_", "tabs\tinside", "trailing space ", "quote \" and '",
-            "// whole line comment", "<a href=\"#y\">a</a>", "[`r#type`]", "%percent",
+            "// whole line comment", "<i>it</i> < > &amp;", "[`r#type`]", "%percent",
         ];
         let lines = 1 + self.t.pick(3);
         let mut s = String::new();
